@@ -3,6 +3,7 @@ package sim
 import (
 	"bytes"
 	"fmt"
+	"math/big"
 	"time"
 
 	"github.com/fxamacker/cbor/v2"
@@ -91,7 +92,9 @@ func scenarioC08(r *Run) {
 	}
 	sp := Spelling{T: t, Labels: true, Values: true, AlgLabel: true}
 	ent := NewEntropy(uint64(t.U32("entropy.seed")))
-	switch t.Pick([]int{3, 5, 3, 3, 1, 1}, "c08.object") {
+	switch t.Pick([]int{3, 5, 3, 3, 1, 1, 1}, "c08.object") {
+	case 6:
+		c08RelayEdit(r, t, ent)
 	case 5:
 		c08DegenerateCsig(r, t, ent)
 	case 4:
@@ -571,6 +574,8 @@ func c08GoValues(r *Run, t *tape.Tape, ent *Entropy) {
 		v    any
 	}{
 		{"time.Time", time.Unix(int64(t.Choose(1<<31, "c08.go.time")), 0).UTC()},
+		{"*big.Int", big.NewInt(int64(1 + t.Choose(1<<30, "c08.go.big")))},
+		{"big.Int", *big.NewInt(-70000)},
 		{"[]string", []string{"b", "a", genText(t, 5)}},
 		{"[]int", []int{3, -1, 70000}},
 		{"[][]byte", [][]byte{{1}, {2, 3}}},
@@ -735,4 +740,70 @@ func keyInMemory(ks *KeySpec) (cose.Key, bool) {
 		k.Params[itemToGo(e.K, Spelling{}, true)] = itemToGo(e.V, Spelling{}, false)
 	}
 	return k, true
+}
+
+// c08RelayEdit: a relay decodes a message, discards the retained raw
+// UNPROTECTED bytes and edits that bucket (the protected one stays raw, as
+// received), then encodes.  Closure: the encoder refuses the result or emits
+// bytes the decoder accepts - the rules that span both buckets included.
+func c08RelayEdit(r *Run, t *tape.Tape, ent *Entropy) {
+	k := pickCheapKey(t)
+	first, second := int64(cose.HeaderLabelIV), int64(cose.HeaderLabelPartialIV)
+	if t.Bool(1, 2, "c08.relay.swap") {
+		first, second = second, first
+	}
+	m := &cose.Sign1Message{Headers: cose.Headers{Protected: cose.ProtectedHeader{cose.HeaderLabelAlgorithm: cose.Algorithm(k.Alg)}, Unprotected: cose.UnprotectedHeader{cose.HeaderLabelKeyID: []byte("k")}}, Payload: []byte("p")}
+	withIV := t.Bool(2, 3, "c08.relay.iv")
+	if withIV {
+		m.Headers.Protected[first] = t.Bytes(1+t.Choose(8, "c08.relay.ivn"), "c08.relay.iv.v")
+	}
+	var err error
+	var wire []byte
+	r.Lib(func() {
+		if err = m.Sign(ent, nil, r.signerFor(k, false)); err == nil {
+			wire, err = m.MarshalCBOR()
+		}
+	})
+	if err != nil {
+		return
+	}
+	var rc cose.Sign1Message
+	r.Lib(func() { err = rc.UnmarshalCBOR(wire) })
+	if err != nil {
+		r.Check()
+		r.Fail("encoder-output-refused/Sign1Tagged", "own output refused: %v\n%s", err, hexShort(wire))
+		return
+	}
+	rc.Headers.RawUnprotected = nil
+	edit := ""
+	switch t.Choose(5, "c08.relay.edit") {
+	case 0:
+		rc.Headers.Unprotected[second] = []byte{9, 9}
+		edit = "partner IV parameter added to unprotected"
+	case 1:
+		rc.Headers.Unprotected[cose.HeaderLabelCritical] = []any{int64(4)}
+		edit = "crit added to unprotected"
+	case 2:
+		rc.Headers.Unprotected[cose.HeaderLabelKeyID] = "text kid"
+		edit = "kid replaced by a text string"
+	case 3:
+		rc.Headers.Unprotected[cose.HeaderLabelAlgorithm] = cose.Algorithm(k.Alg)
+		edit = "alg repeated in unprotected"
+	default:
+		rc.Headers.Unprotected[int64(-70010)] = []any{int64(1), "x"}
+		edit = "private parameter added"
+	}
+	r.Op("RELAY", "decoded Sign1 (protected raw kept, IV-ish in protected: %v), unprotected raw discarded, %s", withIV, edit)
+	r.Outcome("relay-edit/" + edit)
+	b := r.c08Encode(t, "Sign1Message", func() ([]byte, error) { return rc.MarshalCBOR() })
+	if b == nil {
+		r.Outcome("relay-edit-refused-by-encoder")
+		return
+	}
+	var back cose.Sign1Message
+	r.Lib(func() { err = back.UnmarshalCBOR(b) })
+	r.Check()
+	if err != nil {
+		r.Fail("encoder-output-refused/relay-edit", "a decoded Sign1 whose unprotected bucket was edited (%s) is encoded to bytes the decoder refuses: %v\n%s", edit, err, hexShort(b))
+	}
 }
